@@ -62,4 +62,28 @@ CONFIG = {
         "thorough": {"checks": 150000, "shards": 14, "min_nontrivial": 250000, "timeout": 3000},
         "mandatory_labels": ['C07:pair:criteriaOmission>criteriaOmission', 'C07:pair:criteriaOmission>preferenceReversal', 'C07:pair:criteriaOmission>fatigue', 'C07:pair:criteriaOmission>criteriaConcealment', 'C07:pair:criteriaOmission>criteriaMixing', 'C07:pair:criteriaOmission>anchoring', 'C07:pair:preferenceReversal>criteriaOmission', 'C07:pair:preferenceReversal>preferenceReversal', 'C07:pair:preferenceReversal>fatigue', 'C07:pair:preferenceReversal>criteriaConcealment', 'C07:pair:preferenceReversal>criteriaMixing', 'C07:pair:preferenceReversal>anchoring', 'C07:pair:fatigue>criteriaOmission', 'C07:pair:fatigue>preferenceReversal', 'C07:pair:fatigue>fatigue', 'C07:pair:fatigue>criteriaConcealment', 'C07:pair:fatigue>criteriaMixing', 'C07:pair:fatigue>anchoring', 'C07:pair:criteriaConcealment>criteriaOmission', 'C07:pair:criteriaConcealment>preferenceReversal', 'C07:pair:criteriaConcealment>fatigue', 'C07:pair:criteriaConcealment>criteriaConcealment', 'C07:pair:criteriaConcealment>criteriaMixing', 'C07:pair:criteriaConcealment>anchoring', 'C07:pair:criteriaMixing>criteriaOmission', 'C07:pair:criteriaMixing>preferenceReversal', 'C07:pair:criteriaMixing>fatigue', 'C07:pair:criteriaMixing>criteriaConcealment', 'C07:pair:criteriaMixing>criteriaMixing', 'C07:pair:criteriaMixing>anchoring', 'C07:pair:anchoring>criteriaOmission', 'C07:pair:anchoring>preferenceReversal', 'C07:pair:anchoring>fatigue', 'C07:pair:anchoring>criteriaConcealment', 'C07:pair:anchoring>criteriaMixing', 'C07:pair:anchoring>anchoring', 'C07:nontrivial:weightedSum', 'C07:nontrivial:owa', 'C07:nontrivial:choquetIntegral', 'C07:nontrivial:electreIII', 'C07:nontrivial:majorityHeuristic', 'C07:nontrivial:aspectEliminationHeuristic', 'C07:nontrivial:satisfactionHeuristic'],
     },
+    "C05": {
+        "rule": "API: ELECTRE III requests with 1..6 alternatives x 1..4 criteria, gain/cost, constant thresholds 0<=q<p<v each "
+                "possibly absent, default/custom distillation function (50% integer/dyadic instances with frequent ties); "
+                "component: RankAscending/RankDescending on credibility matrices over grids {k/10},{k/4} and continuous. "
+                "Oracle = independent textbook re-implementation (concordance, discordance, credibility, distillation over "
+                "index sets) + links-from-indices rule. Non-trivial = >= 3 alternatives and an inner distillation or >= 3 "
+                "classes; distinct by case text",
+        "assumptions": ["ascendingIndex = max-qualification-first distillation (naming fixed by the matrices pinned in distilation_test.go)",
+                        "instances where a reference comparison has a non-zero margin below 1e-9 are skipped as ambiguous (counted)"],
+        "quick": {"checks": 15000, "shards": 8, "min_nontrivial": 20000},
+        "thorough": {"checks": 200000, "shards": 14, "min_nontrivial": 250000, "timeout": 3000},
+        "mandatory_labels": ["C05:inner-distillation", "C05:tie-on-criterion-without-q-p"],
+    },
+    "C06": {
+        "rule": "cases = ELECTRE III requests (C05 domain) with a planted weakly dominated pair (a copy worsened on some criteria by "
+                "0..k steps) and, with probability 1/2, an identical twin, among 0..4 further alternatives; each case = 3 "
+                "decisions (base, permuted listing, every k x 2^m with m in -3..8). Relations: dominance => indices and link; "
+                "twins => equal indices; permutation / weight scaling => same indices. Non-trivial = a strictly dominated pair "
+                "with a tie on some criterion among >= 3 considered alternatives; distinct by request text",
+        "assumptions": ["instances where a reference comparison has a non-zero margin below 1e-9 are not judged for dominance (counted as ambiguous)"],
+        "quick": {"checks": 12000, "shards": 8, "min_nontrivial": 15000},
+        "thorough": {"checks": 150000, "shards": 14, "min_nontrivial": 200000, "timeout": 3000},
+        "mandatory_labels": ["C06:twins", "C06:dominated-pairs"],
+    },
 }
